@@ -615,7 +615,15 @@ func runCLI(c *harness.Ctx, sc scenario, s, slot int) {
 	if redirect {
 		method = "PUT>302"
 	}
-	c.Info("scenario=%d op=cli:%s chunks=%d n=%d fault=%s@%d", s, cmdName, len(sc.idx.Chunks), sc.n, method, fk)
+	// which refusal: mostly 403; otherwise one of the other answers with which servers and the things in front of them
+	// (WebDAV: 409 for a missing parent collection, 423 locked; proxies: 401, 407, 429, 451; 5xx answers are retried and
+	// therefore left to C14) decline
+	// a request without having carried it out
+	refusal := http.StatusForbidden
+	if rng.Intn(2) == 0 {
+		refusal = []int{400, 401, 402, 405, 406, 407, 409, 410, 411, 412, 413, 415, 421, 423, 424, 428, 429, 431, 451}[harness.CaseRng(c.Seed^0x4e4, s*64+slot).Intn(19)]
+	}
+	c.Info("scenario=%d op=cli:%s chunks=%d n=%d fault=%s@%d refusal=%d", s, cmdName, len(sc.idx.Chunks), sc.n, method, fk, refusal)
 	c.LogInfo()
 	dir := c.CaseDir()
 	dst := dsu.NewMemStore("dst")
@@ -637,7 +645,7 @@ func runCLI(c *harness.Ctx, sc scenario, s, slot int) {
 			}
 			if r.Method == method && n == fk {
 				atomic.AddInt64(&delivered, 1)
-				http.Error(w, "forbidden (injected)", http.StatusForbidden)
+				http.Error(w, "refused (injected)", refusal)
 				return
 			}
 			h.ServeHTTP(w, r)
@@ -686,7 +694,7 @@ func runCLI(c *harness.Ctx, sc scenario, s, slot int) {
 	c.Count("faults_delivered", nd)
 	if err == nil {
 		if nd > 0 {
-			c.Violation("success-despite-fault:cli-"+cmdName, "request %s #%d was answered 403, yet desync %v exited 0", method, fk, args)
+			c.Violation("success-despite-fault:cli-"+cmdName, "request %s #%d was answered %d (or redirected), yet desync %v exited 0", method, fk, refusal, args)
 			return
 		}
 		if cmdName == "make" || cmdName == "tar" {
